@@ -240,6 +240,12 @@ pub fn run(ctx: &Ctx, c: &Case, o: &mut Outcome) {
     }
     gens::set_io_style((case_hash(c) % 4) as u8);
     o.label(format!("io-style/{}", gens::io_style()));
+    // a quarter of the cases: verification is done by a second long-lived thread of the caller
+    let second = (case_hash(c) / 4) % 4 == 1;
+    verify_on_second_thread(second);
+    if second {
+        o.label("verified-by-a-second-thread");
+    }
     let mut sink = gens::Sink::new();
     let res = match c.via {
         Via::Tree => guarded(|| r.generate_rln_proof(gens::rd(&b.bytes), &mut sink).map_err(|e| e.to_string())),
@@ -417,7 +423,7 @@ impl Property for C12 {
     }
     fn rule(&self) -> String {
         "proving requests for three entry points (generate_rln_proof from tree state, generate_rln_proof_with_witness, raw prove), valid ones (C01's generator; a third of the cases on a tree with a history of other members' writes, batch removals and reads of the prover's path after registration) and invalid ones by class: mid = limit, mid = limit+1+d, mid >= 2^16 with limit > mid, limit - mid > 2^16, limit = 0, mid = p-1, index in {cap, cap+1, usize::MAX}, path length 0/1/19/21, a direction value in 2..255, index vector of different length, truncation at a generated byte, trailing bytes, declared signal length longer / shorter / huge (2^32, 2^63, u64::MAX-135, u64::MAX), random bytes. Fixed part: every class (34 representatives) once on each of the three entry points; generated part: the same classes with generated requests and parameters. \
-         Oracle: Err, or Ok with a message that verification accepts (verify_rln_proof against the same tree for the tree entry, verify for witness entries); a panic or an Ok with a rejected proof is a violation; valid requests must succeed; after every third invalid request the plain valid request is proved on the same instance and must succeed and verify. The reference witness generator partitions witness-level requests (label only; an accepted proof for an assignment it rejects raises a harness alarm). \
+         Oracle: Err, or Ok with a message that verification accepts (verify_rln_proof against the same tree for the tree entry, verify for witness entries); a panic or an Ok with a rejected proof is a violation; valid requests must succeed; after every third invalid request the plain valid request is proved on the same instance and must succeed and verify. The reference witness generator partitions witness-level requests (label only; an accepted proof for an assignment it rejects raises a harness alarm). A quarter of the cases have every verification call made by a second long-lived thread of the caller (taking turns with the thread that proves and changes the tree). \
          non-trivial = any invalid class, or a valid request with mid = limit-1; distinct by case content".into()
     }
     fn assumptions(&self) -> Vec<String> {
